@@ -50,6 +50,10 @@ def instantiations(tier, seed):
         keys = rng.sample(its, min(2, len(its)))
         for ans in ["vector", "none", "raise"][: (3 if k % 3 == 0 else 1)]:
             out.append({"part": "select", "model": c, "prio_keys": keys, "answer": ans})
+        if k % 3 == 0:
+            # the solver may fail in any way: exceptions without arguments, with several, of other classes
+            for how in ("bare", "assert", "two-args"):
+                out.append({"part": ["select", "cfgselect"][k % 2], "model": c, "prio_keys": keys[:1], "answer": "raise", "raise_how": how, "only_leafs": bool(k % 4)})
         out.append({"part": "cfgselect", "model": c, "prio_keys": keys[:1], "answer": "vector", "only_leafs": True})
         if k % 3 == 1:
             out.append({"part": "cfgselect", "model": c, "prio_keys": keys[:1], "answer": "vector", "only_leafs": False})
@@ -104,6 +108,13 @@ def run_inst(spec, run):
                 got["P"] = P
                 got["objs"] = [list(o) for o in objs]
                 if spec["answer"] == "raise":
+                    how = spec.get("raise_how", "message")
+                    if how == "bare":
+                        raise SolverRaised                     # an exception without arguments
+                    if how == "assert":
+                        raise AssertionError()
+                    if how == "two-args":
+                        raise SolverRaised("solver failed", 3)
                     raise SolverRaised("solver failed")
                 res = []
                 for k in range(len(got["objs"])):
